@@ -66,6 +66,7 @@ type tr struct {
 	constRecs []map[string]string
 	im0Fields []string
 	charact   map[string]bool
+	runInfo   *funcInfo
 }
 
 type swModule struct {
@@ -267,6 +268,12 @@ type fctx struct {
 	swVars []string // "(c0 : U8)" style params for switch arms
 	swArgs []string
 	sink   *swModule // when translating a switch arm: where calls / nested switches are recorded
+
+	// Run translation
+	loopMode  bool
+	runFlag   string
+	runErrVar string
+	checkActs []string
 }
 
 func (c *fctx) emit(format string, args ...interface{}) {
@@ -622,6 +629,18 @@ func (c *fctx) builtinPure(ce *ast.CallExpr) bool {
 }
 
 func (c *fctx) binary(x *ast.BinaryExpr) string {
+	if c.loopMode && x.Op == token.NEQ {
+		if ce, ok := isCall(x.X, "atomic", "LoadInt32"); ok && len(ce.Args) == 1 {
+			if ue, ok := ce.Args[0].(*ast.UnaryExpr); ok && ue.Op == token.AND {
+				if id, ok := ue.X.(*ast.Ident); ok && id.Name == c.runFlag {
+					if tv := c.t.info.Types[x.Y]; tv.Value != nil && tv.Value.ExactString() == "0" {
+						c.checkActs = append(c.checkActs, ".loadFlag")
+						return "canceled"
+					}
+				}
+			}
+		}
+	}
 	lt := c.typeOf(x.X)
 	switch x.Op {
 	case token.LAND, token.LOR:
@@ -953,6 +972,8 @@ func terminates(stmts []ast.Stmt) bool {
 	switch s := stmts[len(stmts)-1].(type) {
 	case *ast.ReturnStmt:
 		return true
+	case *ast.BranchStmt:
+		return s.Tok == token.BREAK
 	case *ast.BlockStmt:
 		return terminates(s.List)
 	case *ast.IfStmt:
@@ -1000,10 +1021,67 @@ func (c *fctx) block(stmts []ast.Stmt) {
 		c.stmt(s)
 	}
 	if !terminates(stmts) {
-		if c.fi.decl.Type.Results != nil && len(c.fi.decl.Type.Results.List) > 0 && c.indent == 1 {
+		if c.loopMode {
+			if c.indent == 1 {
+				c.emit("pure .cont")
+			} else {
+				c.t.failf(c.fi.decl.Pos(), "Run: nested block that neither returns nor breaks must be followed by the rest of the body")
+			}
+			return
+		}
+		if c.fi.decl.Type.Results != nil && len(c.fi.decl.Type.Results.List) > 0 && c.indent == 1 && c.runFlag == "" {
 			c.t.failf(c.fi.decl.Pos(), "missing return")
 		}
 		c.emit("pure ()")
+	}
+}
+
+// loopBlock translates the body of Run's loop in continuation-passing style: `cont` emits what happens when
+// control falls off the end of `stmts` (the rest of the enclosing block, finally `pure .cont`).
+func (c *fctx) loopBlock(stmts []ast.Stmt, cont func()) {
+	if len(stmts) == 0 {
+		cont()
+		return
+	}
+	s, rest := stmts[0], stmts[1:]
+	switch x := s.(type) {
+	case *ast.IfStmt:
+		if x.Else != nil {
+			c.t.failf(x.Pos(), "Run: if/else in the loop body")
+		}
+		if x.Init != nil {
+			// `_, ok := cpu.BreakPoints[cpu.PC]`
+			as, ok := x.Init.(*ast.AssignStmt)
+			if !ok || len(as.Lhs) != 2 || len(as.Rhs) != 1 || as.Tok != token.DEFINE {
+				c.t.failf(x.Pos(), "Run: unsupported if-init")
+			}
+			ie, ok := as.Rhs[0].(*ast.IndexExpr)
+			if !ok {
+				c.t.failf(x.Pos(), "Run: unsupported if-init expression")
+			}
+			if _, isMap := c.typeOf(ie.X).Underlying().(*types.Map); !isMap {
+				c.t.failf(x.Pos(), "Run: if-init index on non-map")
+			}
+			root, path, ok2 := selPath(ie.X)
+			if !ok2 || !c.isCPUIdent(root) || len(path) != 1 {
+				c.t.failf(x.Pos(), "Run: map lookup on something other than a cpu field")
+			}
+			if id, ok := as.Lhs[0].(*ast.Ident); !ok || id.Name != "_" {
+				c.t.failf(x.Pos(), "Run: map lookup value must be discarded")
+			}
+			key := c.expr(ie.Index)
+			c.emit("let %s : Bool := bpHas %s.%s %s", mangle(as.Lhs[1].(*ast.Ident).Name), c.getSnap(), path[0], key)
+		}
+		cond := c.expr(x.Cond)
+		c.emit("if %s then", cond)
+		c.sub(func() { c.loopBlock(x.Body.List, func() { c.loopBlock(rest, cont) }) })
+		c.emit("else")
+		c.sub(func() { c.loopBlock(rest, cont) })
+	case *ast.ReturnStmt, *ast.BranchStmt:
+		c.stmt(s)
+	default:
+		c.stmt(s)
+		c.loopBlock(rest, cont)
 	}
 }
 
@@ -1154,6 +1232,12 @@ func (c *fctx) stmt(s ast.Stmt) {
 		c.ret(x)
 	case *ast.SwitchStmt:
 		c.switchStmt(x)
+	case *ast.BranchStmt:
+		if c.loopMode && x.Tok == token.BREAK && x.Label == nil {
+			c.emit("pure .brk")
+			return
+		}
+		t.failf(s.Pos(), "unsupported branch statement")
 	default:
 		t.failf(s.Pos(), "unsupported statement %T", s)
 	}
@@ -1173,6 +1257,16 @@ func zeroOf(ty types.Type) string {
 }
 
 func (c *fctx) ret(x *ast.ReturnStmt) {
+	if c.loopMode {
+		if len(x.Results) != 1 {
+			c.t.failf(x.Pos(), "Run: return arity")
+		}
+		if id, ok := x.Results[0].(*ast.Ident); ok && id.Name == c.runErrVar {
+			c.checkActs = append(c.checkActs, ".readErr")
+		}
+		c.emit("pure (.ret %s)", c.runErr(x.Results[0]))
+		return
+	}
 	if len(x.Results) == 0 {
 		if len(c.named) > 0 {
 			var ns []string
